@@ -93,7 +93,15 @@ public:
 
     void bvisit(const HadamardProduct &x)
     {
-        check_vector(x.get_factors());
+        // sym x sym x ... = sym; the product with a non-symmetric factor
+        // can still be symmetric (e.g. identity x anything is diagonal)
+        for (auto &elt : x.get_factors()) {
+            elt->accept(*this);
+            if (!is_true(is_symmetric_)) {
+                is_symmetric_ = tribool::indeterminate;
+                return;
+            }
+        }
     }
 
     tribool apply(const MatrixExpr &s)
